@@ -540,12 +540,14 @@ class BitString(base.SimpleAsn1Type):
         return self.clone(SizedInteger(value << len(self._value) | self._value).setBitLength(len(self._value) + len(value)))
 
     def __mul__(self, value):
-        bitString = self._value
-        while value > 1:
-            bitString <<= len(self._value)
-            bitString |= self._value
-            value -= 1
-        return self.clone(bitString)
+        length = len(self._value)
+        bitString = 0
+        times = 0
+        while times < value:
+            bitString = bitString << length | self._value
+            times += 1
+        # keep the leading zero bits: the result is `times` copies long
+        return self.clone(SizedInteger(bitString).setBitLength(length * times))
 
     def __rmul__(self, value):
         return self * value
